@@ -135,6 +135,16 @@ CHECKS = {
              "system group edits; members, system members and group/system-restricted compatible units are compared with an own transitive closure after every edit; cyclic 'using' must be refused.",
         note="Compound quantities under square-root based systems (Planck, atomic) with total exponent > 2 are skipped: intermediate float products underflow. A group using itself is accepted by pint and loops forever (not in the statement; never generated).",
         design="5/C14"),
+    "C15": dict(
+        technique="Hypothesis quantities over the whole registry x every rewriting helper and its in-place twin, with value/dimension oracles from an independent definition reader (exact in the Fraction registry), an R-based proportionality predicate for to_reduced_units and prefix arithmetic for to_compact; registries with auto_reduce_dimensions / autoconvert_to_preferred",
+        text="Random quantities (1-4 units incl. prefixed spellings, exponents -3..3, magnitudes over 60 decades, int/Fraction/float/Decimal/ufloat) go through "
+             "to_root_units, to_base_units, to_reduced_units, to_compact (with and without unit=), to_preferred and their ito_ twins: the result must have the "
+             "same R-dimension and base value (== in the Fraction registry for rational units), leave the input untouched, and the in-place form must equal the "
+             "functional one. to_reduced_units may keep no two units with proportional dimension; to_compact may change exactly one decimal prefix, must bring "
+             "a single first-power unit into [1,1000) when the prefix exists (also for uncertain magnitudes on prefixed units) and return dimensionless/0/NaN/inf "
+             "unchanged. Products and quotients in auto_reduce_dimensions / autoconvert_to_preferred registries are checked the same way.",
+        note="Two known findings: to_compact AssertionError for names with two readings (rads, dtex); to_reduced_units with non-terminating merged exponents in float/Decimal registries. to_preferred is not run in the Decimal registry (the MIP solver rejects Decimal).",
+        design="5/C15"),
     "C20": dict(
         technique="complete enumeration of an independently curated table of ~260 standard values x spellings x {Fraction, float} registries (differential oracle: the table)",
         text="Each entry of data/standards.txt (SI and binary prefixes, SI units, defining constants, yard/pound multiples, US/imperial capacity, avoirdupois/"
